@@ -1,4 +1,5 @@
 """C05 - samples written into fragments are read back exactly (Fragment.tla)."""
+import os
 import core
 
 
@@ -6,18 +7,35 @@ def run(ctx):
     q = ctx.tier == "quick"
     t = "quick" if q else "thorough"
     ctx.build_harness()
+    read_traces, traced = [], 0
     for kind in ("single", "multi"):
         r = ctx.tlc_ok("Fragment", "Fragment_%s_%s.cfg" % (kind, t), workers=14, timeout=3000, heap="16g", stack="64m")
         if not r.exported:
             raise core.Machinery("nothing exported")
         inp = ctx.write_ndjson("frag_%s.ndjson" % kind, r.exported)
-        core.absorb(ctx, ctx.harness(["c05-replay", "-in", inp], timeout=3000))
-    ctx.cov["bounds"] = {"single_track": "all histories of <= %d adds over 5 sample classes" % (5 if q else 7),
+        rt = os.path.join(ctx.scratch, "read_%s.ndjson" % kind)
+        st = core.absorb(ctx, ctx.harness(["c05-replay", "-in", inp, "-readtrace", rt, "-readstride", "7" if q else "3"], timeout=3000))
+        read_traces.append(rt)
+        traced += st["extra"]["read_traced_track_fragments"]
+    # code -> spec: raw box fields vs the samples the library returns, on the corpus and on the segments just written
+    rc = os.path.join(ctx.scratch, "read_corpus.ndjson")
+    sc = core.absorb(ctx, ctx.harness(["c05-read-trace", "-trace", rc], timeout=3000))
+    tr = os.path.join(ctx.specdir, "trace.ndjson")
+    with open(tr, "w") as out:
+        for p in [rc] + read_traces:
+            with open(p) as f:
+                for ln in f:
+                    out.write(ln)
+    ctx.validate_traces_all("FragmentRead", "FragmentRead.cfg", tr, max_rejects=8, heap="12g", stack="64m",
+                            keyfn=lambda info: "read/%s" % ("corpus" if not str((info.get("trace") or [{}])[0].get("obj", "")).startswith("hist") else "api-written"),
+                            groupfn=lambda h: str(h.get("obj", "")).split("#")[0].split("/")[0],
+                            what="FragmentRead.tla rejected the samples returned for a track fragment")
+    ctx.cov["bounds"] = {"read_traces": "%d corpus track fragments + %d track fragments of segments written in this run, validated against FragmentRead.tla" % (sc["extra"]["track_fragments"], traced),
+                         "single_track": "all histories of <= %d adds over 5 sample classes" % (5 if q else 7),
                          "multi_track": "2 tracks, all interleavings of <= %d adds over 5 classes (incl. tracks without samples)" % (4 if q else 5),
                          "api_variants": ["AddFullSampleToTrack", "AddFullSample", "AddSample+data", "AddSampleToTrack+data", "AddSamples", "AddSampleInterval"],
                          "encode": ["Encode", "EncodeSW"], "optimize": [False, True],
                          "segment_shapes": ["1 fragment", "2 fragments with emsg/prft/free/uuid/unknown boxes before each moof"]}
     ctx.cov["rule"] = ("behaviours = encoded states of Fragment.tla (history x optimisation); each replayed through every API variant, "
                        "both encoders and both segment shapes, read back by mp4ff (both decoders) and by an independent ISO reader")
-    ctx.cov["traces_validated_against_impl"] = 0
     return ctx.finish("model_checking", exhaustive=True)
